@@ -678,7 +678,7 @@ func e7fieldName(t types.Type, idx int) (owner, field string) {
 	if !ok || idx >= st.NumFields() {
 		return e7type(t), "#" + strconv.Itoa(idx)
 	}
-	return e7type(t), st.Field(idx).Name()
+	return e7type(t), canonField(st.Field(idx))
 }
 
 func (c *e7ctx) build(v ssa.Value) *e7node {
